@@ -58,11 +58,49 @@
 #define SPEC_PINNED_ALG(alg, haskey, keyalg) \
 	((alg) != JWT_ALG_NONE ? (alg) : ((haskey) ? (keyalg) : JWT_ALG_NONE))
 
+/* ---- JWS algorithm names, RFC 7518 section 3.1 / RFC 8037 / RFC 8812 ---- */
+#define LIT4(s, a, b, c, d) ((s)[0] == (a) && (s)[1] == (b) && (s)[2] == (c) && (s)[3] == (d) && (s)[4] == 0)
+#define LIT5(s, a, b, c, d, e) ((s)[0] == (a) && (s)[1] == (b) && (s)[2] == (c) && (s)[3] == (d) && (s)[4] == (e) && (s)[5] == 0)
+#define LIT6(s, a, b, c, d, e, f) ((s)[0] == (a) && (s)[1] == (b) && (s)[2] == (c) && (s)[3] == (d) && (s)[4] == (e) && (s)[5] == (f) && (s)[6] == 0)
+#define SPEC_NAME_IS(s, alg) ( \
+	(alg) == JWT_ALG_NONE ? LIT4(s, 'n', 'o', 'n', 'e') : \
+	(alg) == JWT_ALG_HS256 ? LIT5(s, 'H', 'S', '2', '5', '6') : \
+	(alg) == JWT_ALG_HS384 ? LIT5(s, 'H', 'S', '3', '8', '4') : \
+	(alg) == JWT_ALG_HS512 ? LIT5(s, 'H', 'S', '5', '1', '2') : \
+	(alg) == JWT_ALG_RS256 ? LIT5(s, 'R', 'S', '2', '5', '6') : \
+	(alg) == JWT_ALG_RS384 ? LIT5(s, 'R', 'S', '3', '8', '4') : \
+	(alg) == JWT_ALG_RS512 ? LIT5(s, 'R', 'S', '5', '1', '2') : \
+	(alg) == JWT_ALG_ES256 ? LIT5(s, 'E', 'S', '2', '5', '6') : \
+	(alg) == JWT_ALG_ES384 ? LIT5(s, 'E', 'S', '3', '8', '4') : \
+	(alg) == JWT_ALG_ES512 ? LIT5(s, 'E', 'S', '5', '1', '2') : \
+	(alg) == JWT_ALG_PS256 ? LIT5(s, 'P', 'S', '2', '5', '6') : \
+	(alg) == JWT_ALG_PS384 ? LIT5(s, 'P', 'S', '3', '8', '4') : \
+	(alg) == JWT_ALG_PS512 ? LIT5(s, 'P', 'S', '5', '1', '2') : \
+	(alg) == JWT_ALG_ES256K ? LIT6(s, 'E', 'S', '2', '5', '6', 'K') : \
+	(alg) == JWT_ALG_EDDSA ? LIT5(s, 'E', 'd', 'D', 'S', 'A') : 0)
+/* the algorithm a header/JWK "alg" text denotes: exact, case-sensitive */
+#define SPEC_STR_ALG(s) ( \
+	SPEC_NAME_IS(s, JWT_ALG_NONE) ? JWT_ALG_NONE : SPEC_NAME_IS(s, JWT_ALG_HS256) ? JWT_ALG_HS256 : \
+	SPEC_NAME_IS(s, JWT_ALG_HS384) ? JWT_ALG_HS384 : SPEC_NAME_IS(s, JWT_ALG_HS512) ? JWT_ALG_HS512 : \
+	SPEC_NAME_IS(s, JWT_ALG_RS256) ? JWT_ALG_RS256 : SPEC_NAME_IS(s, JWT_ALG_RS384) ? JWT_ALG_RS384 : \
+	SPEC_NAME_IS(s, JWT_ALG_RS512) ? JWT_ALG_RS512 : SPEC_NAME_IS(s, JWT_ALG_ES256) ? JWT_ALG_ES256 : \
+	SPEC_NAME_IS(s, JWT_ALG_ES384) ? JWT_ALG_ES384 : SPEC_NAME_IS(s, JWT_ALG_ES512) ? JWT_ALG_ES512 : \
+	SPEC_NAME_IS(s, JWT_ALG_PS256) ? JWT_ALG_PS256 : SPEC_NAME_IS(s, JWT_ALG_PS384) ? JWT_ALG_PS384 : \
+	SPEC_NAME_IS(s, JWT_ALG_PS512) ? JWT_ALG_PS512 : SPEC_NAME_IS(s, JWT_ALG_ES256K) ? JWT_ALG_ES256K : \
+	SPEC_NAME_IS(s, JWT_ALG_EDDSA) ? JWT_ALG_EDDSA : JWT_ALG_INVAL)
+
 /* a C string inside an object, terminated at its last byte at the latest */
 #define SPEC_ERRMSG_TERMINATED(o) ((o)->error_msg[JWT_ERR_LEN - 1] == 0)
 
 /* frame target: exactly the message buffer of an object (NOT
  * __CPROVER_object_whole, which would be the whole enclosing struct) */
 #define SPEC_ERRMSG_FRAME(o) __CPROVER_object_upto((o)->error_msg, JWT_ERR_LEN)
+
+/* the error flag only ever goes from clear to set, and a set flag comes with a
+ * non-empty message; an existing message is never erased (jwt_write_error) */
+#define SPEC_ERR_MONOTONE(o) \
+__CPROVER_ensures((o)->error == __CPROVER_old((o)->error) || (o)->error == 1) \
+__CPROVER_ensures((o)->error != __CPROVER_old((o)->error) ==> (o)->error_msg[0] != 0) \
+__CPROVER_ensures(__CPROVER_old((o)->error_msg[0]) != 0 ==> (o)->error_msg[0] != 0)
 
 #endif
